@@ -47,7 +47,25 @@ def targets_in_specs():
     return found
 
 
+def kani_file_current():
+    """kx/harness/std_specs.rs (Kani proofs of the same clauses for the types of at most 64 bits) must be the text the
+    generator produces now, and the group in kx/groups.json must list exactly its harnesses"""
+    import json
+    text, names = stdspecs.kani_text()
+    path = os.path.join(VERIF, "kx", "harness", "std_specs.rs")
+    if not os.path.exists(path) or open(path).read() != text:
+        print("audit_std: kx/harness/std_specs.rs is stale; regenerate with `python3 vx/stdspecs.py --kani > kx/harness/std_specs.rs`", file=sys.stderr)
+        return False
+    grp = json.load(open(os.path.join(VERIF, "kx", "groups.json"))).get("std_specs", {})
+    if sorted(h["name"] for h in grp.get("harnesses", [])) != sorted(names):
+        print("audit_std: group std_specs in kx/groups.json does not list the generated harnesses", file=sys.stderr)
+        return False
+    return True
+
+
 def main():
+    if not kani_file_current():
+        return 2
     found = targets_in_specs() | set(AUDIT)
     missing = found - set(AUDIT)
     if missing:
